@@ -390,6 +390,13 @@ def _observe(world: World, m: MetaModel, hz: dict[str, bool], step_kind: str, ob
                     d = _cmp([r for r in got if not str(r[2]).startswith("_fs_")], [[t[0], t[1], t[2], "BASE TABLE"] for t in ot] + [[v[0], v[1], v[2], "VIEW"] for v in ov])
                     if d:
                         return v_(f"cross-database/information_schema.tables/{step_kind}", "another database's information_schema.tables, read through a qualified name, lists exactly that database's objects", {"reader_database": db, "read": other, **d})
+                    # the comments must be the same whichever way they are read: qualified from here, or from a session of that database
+                    gotc = q(cur, f"SELECT table_schema, table_name, comment FROM {other}.information_schema.tables WHERE table_catalog = '{other}' AND table_schema NOT IN ('information_schema', 'main') AND table_type = 'BASE TABLE'")
+                    home = q(fs.connect(database=other).cursor(), f"SELECT table_schema, table_name, comment FROM information_schema.tables WHERE table_catalog = '{other}' AND table_schema NOT IN ('information_schema', 'main') AND table_type = 'BASE TABLE'")
+                    if not isinstance(gotc, dict) and not isinstance(home, dict):
+                        d = _cmp([r for r in gotc if not str(r[1]).startswith("_fs_")], [r for r in home if not str(r[1]).startswith("_fs_")])
+                        if d:
+                            return v_("cross-database/comment", "another database's table comments read through a qualified information_schema name equal those read from a session of that database", {"reader_database": db, "read": other, **d})
                 got = q(cur, f"SELECT table_schema, table_name, column_name, data_type FROM {other}.information_schema.columns WHERE table_catalog = '{other}' AND table_schema NOT IN ('information_schema', 'main')")
                 if not isinstance(got, dict):
                     want_c = [[t[1], t[2], c, TYPES[ty][0]] for t in ot for c, ty, nn in m.tables[t]["cols"]]
